@@ -16,23 +16,27 @@ func Operate[A any, B any, R any](ac <-chan A, bc <-chan B, o func(A, B) R) <-ch
 	oc := make(chan R)
 
 	go func() {
-		defer close(oc)
-
 		for {
 			an, ok := <-ac
 			if !ok {
-				Drain(bc)
 				break
 			}
 
 			bn, ok := <-bc
 			if !ok {
-				Drain(ac)
 				break
 			}
 
 			oc <- o(an, bn)
 		}
+
+		// Close the output before draining, and drain the inputs
+		// concurrently, so that a consumer waiting for the end of the
+		// output can never block the producers of the longer input.
+		close(oc)
+
+		go Drain(ac)
+		Drain(bc)
 	}()
 
 	return oc
